@@ -105,10 +105,20 @@ fn check_bytes(b: &[u8], out: &mut Vec<Viol>) -> u64 {
     let res = guarded(|| {
         let mut v: Vec<Viol> = vec![];
         let mut class: u64;
+        // the owning constructor accepts exactly what the borrowing one accepts
+        let owned_ok = RamBundle::parse_indexed_from_vec(b.to_vec()).is_ok();
         let bundle = match RamBundle::parse_indexed_from_slice(b) {
-            Err(_) => return (v, 1u64),
+            Err(_) => {
+                if owned_ok {
+                    v.push(vio("parse/constructors-disagree", format!("parse_indexed_from_vec = Ok but parse_indexed_from_slice = Err on {} bytes", b.len()), b));
+                }
+                return (v, 1u64);
+            }
             Ok(x) => x,
         };
+        if !owned_ok {
+            v.push(vio("parse/constructors-disagree", format!("parse_indexed_from_slice = Ok but parse_indexed_from_vec = Err on {} bytes", b.len()), b));
+        }
         if !header_ok {
             v.push(vio("parse/accepts-malformed-header", format!("parse_indexed_from_slice = Ok on {} bytes without a complete header / magic", b.len()), b));
             return (v, 2);
